@@ -1,0 +1,78 @@
+//go:build verif
+
+// Contracts for package zip, read by /verif/engine (govc).  Comment-only.
+
+package zip
+
+//@ # ---------- extraction never writes outside its directory (C12) ----------
+//@ # a name that may be created below the target directory: a clean, valid file path (PATHOK: module.CheckFilePath, C06)
+//@ spec func FILEOKNAME(x string) bool = path.Clean(x) == x && PATHOK(x, 2)
+//@ # an archive entry name: the module prefix, then nothing, or a valid name, or a valid name plus "/"
+//@ spec func ENTRYOK(n string, prefix string) bool =
+//@     len(n) >= len(prefix) && n[:len(prefix)] == prefix
+//@     && (n[len(prefix):] == ""
+//@         || (if strings.HasSuffix(n[len(prefix):], "/") then FILEOKNAME(n[len(prefix):len(n)-1]) else FILEOKNAME(n[len(prefix):])))
+//@ # the law connecting validated names with the file system (ASSUMED of path/filepath on every OS):
+//@ # joining a clean valid relative file path below dir stays below dir, and so does its parent directory
+//@ axiom join_within(dir string, n string)
+//@   requires FILEOKNAME(n)
+//@   ensures WITHIN(dir, JOIN2(dir, n)) && (filepath.Dir(JOIN2(dir, n)) == dir || WITHIN(dir, filepath.Dir(JOIN2(dir, n))))
+//@   trigger JOIN2(dir, n)
+//@   reason "library behaviour: a valid file path has no empty, '.' or '..' elements, no leading '/', no backslash and no ':' (module.CheckFilePath), so filepath.Join(dir, n) cannot escape dir"
+
+//@ func CheckedFiles.Err
+//@   ensures (result == nil) == (cf.SizeError == nil && len(cf.Invalid) == 0)
+//@   props C12 C05 C17
+
+//@ func collisionChecker.check
+//@   trusted "recursion over parent directories with a map keyed by folded names; only its frame is used here (it touches nothing but its own map)"
+//@   modifies map.collisionChecker
+//@   allocates
+//@   props C12 C05 C17
+
+//@ func checkZip$1
+//@   requires zf != nil
+//@   modifies cf, []FileError
+//@   allocates
+//@   ensures len(cf.Invalid) >= 1 && cf.SizeError == old(cf.SizeError) && cf.Valid == old(cf.Valid)
+//@   props C12
+
+//@ # when checkZip reports no error, every entry of the archive it returns has the module prefix and a valid clean name
+//@ # a file entry (not the prefix itself, not a directory)
+//@ spec func ISFILEENTRY(n string, prefix string) bool = len(n) > len(prefix) && !strings.HasSuffix(n[len(prefix):], "/")
+//@ func checkZip
+//@   requires f != nil
+//@   modifies map.collisionChecker, []FileError
+//@   ensures [C12] entries_valid: result2 == nil ==> result0 != nil && (forall i int :: 0 <= i && i < len(result0.File) ==> result0.File[i] != nil && ENTRYOK(result0.File[i].Name, SPR2("%s@%s/", m.Path, m.Version)))
+//@   ensures [C12] err_is_report: result2 == nil ==> result1.SizeError == nil && len(result1.Invalid) == 0
+//@   ensures [C12] sizes_bounded: result2 == nil ==> (forall i int :: 0 <= i && i < len(result0.File) && ISFILEENTRY(result0.File[i].Name, SPR2("%s@%s/", m.Path, m.Version)) ==> 0 <= asint64(result0.File[i].UncompressedSize64) && asint64(result0.File[i].UncompressedSize64) <= MaxZipFile)
+//@   loop 0:
+//@     invariant 0 - 1 <= @idx && @idx < len(z.File) && z != nil && collisions != nil
+//@     invariant forall i int :: 0 <= i && i < len(z.File) ==> z.File[i] != nil
+//@     invariant prefix == SPR2("%s@%s/", m.Path, m.Version)
+//@     invariant len(cf.Invalid) == 0 ==> (forall i int :: 0 <= i && i <= @idx ==> ENTRYOK(z.File[i].Name, prefix))
+//@     invariant 0 <= size && size <= MaxZipFile && fresharr(cf.Valid) && oldarrays_kept(cf.Valid)
+//@     invariant len(cf.Invalid) == 0 && cf.SizeError == nil ==> (forall i int :: 0 <= i && i <= @idx && ISFILEENTRY(z.File[i].Name, prefix) ==> 0 <= asint64(z.File[i].UncompressedSize64) && asint64(z.File[i].UncompressedSize64) <= MaxZipFile)
+//@     decreases len(z.File) - @idx
+//@   props C12
+
+//@ func Unzip$1
+//@   modifies err
+//@   allocates
+//@   ensures (err == nil) == (old(err) == nil)
+//@   props C12
+
+//@ # every directory and file that Unzip creates lies in (or is) the target directory, files are created
+//@ # exclusively, and nothing is created before the archive passed checkZip with no error
+//@ func Unzip
+//@   modifies map.collisionChecker, ghost.WRITTEN, []FileError
+//@   call os.MkdirAll requires [C12] mkdir_confined: arg_path == dir || WITHIN(dir, arg_path)
+//@   call os.OpenFile requires [C12] create_confined: WITHIN(dir, arg_name) && arg_flag == 193
+//@   loop 0:
+//@     invariant 0 - 1 <= @idx && @idx < len(z.File) && z != nil
+//@     invariant prefix == SPR2("%s@%s/", m.Path, m.Version)
+//@     invariant forall i int :: 0 <= i && i < len(z.File) ==> z.File[i] != nil && ENTRYOK(z.File[i].Name, prefix)
+//@     invariant forall i int :: 0 <= i && i < len(z.File) && ISFILEENTRY(z.File[i].Name, prefix) ==> 0 <= asint64(z.File[i].UncompressedSize64) && asint64(z.File[i].UncompressedSize64) <= MaxZipFile
+//@     decreases len(z.File) - @idx
+//@   uses join_within
+//@   props C12
